@@ -25,6 +25,8 @@ pub struct Cfg {
     pub latency: u64,
     /// searches issued: (offset after the fresh node's start or None = right after bootstrapped(), hash 0 = announced / 1 = unknown, announce)
     pub searches: Vec<(Option<u64>, u8, bool)>,
+    /// the fresh node is given its contacts as routers (it never reaches Bootstrapped on this small network)
+    pub via_router: bool,
     pub rng_seed: u64,
 }
 
@@ -52,22 +54,32 @@ pub fn build(cfg: &Cfg) -> (Scenario, Vec<Box<dyn Peer>>) {
     }
     let mut idb = SplitMix(0xf4e5).bytes20();
     idb[0] = 0xf5;
-    sc.nodes.push(NodeSpec { addr: fresh_addr(cfg.v6), id: Some(InfoHash::from(idb)), read_only: true, announce_port: None, contacts, routers: vec![], start_ms: T_FRESH });
+    if cfg.via_router {
+        let routers = contacts.iter().map(|c| c.to_string()).collect();
+        sc.nodes.push(NodeSpec { addr: fresh_addr(cfg.v6), id: Some(InfoHash::from(idb)), read_only: true, announce_port: None, contacts: vec![], routers, start_ms: T_FRESH });
+    } else {
+        sc.nodes.push(NodeSpec { addr: fresh_addr(cfg.v6), id: Some(InfoHash::from(idb)), read_only: true, announce_port: None, contacts, routers: vec![], start_ms: T_FRESH });
+    }
     sc.actions.push((When::At(T_FRESH), Action::Bootstrapped { node: f, tag: "bootF".into() }));
     let mut tags = vec![];
     for (k, (off, h, ann)) in cfg.searches.iter().enumerate() {
         let tag = format!("s{k}");
         let when = match off {
             Some(o) => When::At(T_FRESH + o),
+            // with routers only, bootstrapped() never resolves on a small network: "right after
+            // bootstrap" is then a fixed late instant
+            None if cfg.via_router => When::At(T_FRESH + 20_000),
             None => When::After { tag: "bootF".into(), delay: 1 },
         };
         sc.actions.push((when, Action::Search { node: f, info_hash: hash(*h), announce: *ann, tag: tag.clone() }));
         tags.push(tag);
     }
-    tags.push("bootF".into());
+    if !cfg.via_router {
+        tags.push("bootF".into());
+    }
     sc.stop_after = tags;
     sc.linger_ms = 50;
-    sc.horizon_ms = T_FRESH + 120_000;
+    sc.horizon_ms = T_FRESH + if cfg.via_router { 40_000 } else { 120_000 };
     let lat = cfg.latency;
     let fa = fresh_addr(cfg.v6);
     sc.link_latency = Arc::new(move |a, b| if a == fa || b == fa { lat } else { 20 });
@@ -115,7 +127,11 @@ pub fn compare(cfg: &Cfg, early: &Obs, late: &Obs) -> Vec<(String, String)> {
     let mut v = vec![];
     for (k, (off, h, _)) in cfg.searches.iter().enumerate() {
         match (&early.results[k], &late.results[k]) {
-            (None, _) => v.push(("early-search-never-ends".to_string(), format!("search #{k} issued {:?} ms after start never ended", off))),
+            // an early search must end whenever the same search issued after bootstrap ends; when the
+            // bootstrap itself never gets anywhere (nobody reachable within the ping timeout) neither
+            // does, and nothing is asserted
+            (None, Some(_)) => v.push(("early-search-never-ends".to_string(), format!("search #{k} issued {:?} ms after start never ended although the same search issued after bootstrap does", off))),
+            (None, None) => {}
             (Some(e), Some(l)) => {
                 if e != l {
                     let when = match (off, early.boot_ms) {
@@ -136,7 +152,7 @@ pub fn compare(cfg: &Cfg, early: &Obs, late: &Obs) -> Vec<(String, String)> {
 }
 
 fn cfg_json(c: &Cfg) -> Value {
-    json!({"mesh":c.mesh,"v6":c.v6,"contacts":c.contacts,"silent_contact":c.silent_contact,"latency":c.latency,"rng_seed":c.rng_seed,
+    json!({"mesh":c.mesh,"v6":c.v6,"contacts":c.contacts,"silent_contact":c.silent_contact,"latency":c.latency,"via_router":c.via_router,"rng_seed":c.rng_seed,
         "searches": c.searches.iter().map(|(o,h,a)| json!([o,h,a])).collect::<Vec<_>>()})
 }
 fn cfg_parse(v: &Value) -> Cfg {
@@ -146,6 +162,7 @@ fn cfg_parse(v: &Value) -> Cfg {
         contacts: v["contacts"].as_array().map(|a| a.iter().map(|x| x.as_u64().unwrap() as usize).collect()).unwrap_or_default(),
         silent_contact: v["silent_contact"].as_bool().unwrap_or(false),
         latency: v["latency"].as_u64().unwrap_or(20),
+        via_router: v["via_router"].as_bool().unwrap_or(false),
         rng_seed: v["rng_seed"].as_u64().unwrap_or(1),
         searches: v["searches"].as_array().map(|a| a.iter().map(|s| (s[0].as_u64(), s[1].as_u64().unwrap_or(0) as u8, s[2].as_bool().unwrap_or(false))).collect()).unwrap_or_default(),
     }
@@ -184,7 +201,7 @@ pub fn run(tier: Tier) -> Report {
                     if v6 && latency == 480 {
                         continue;
                     }
-                    bases.push(Cfg { mesh, v6, contacts: contacts.clone(), silent_contact: silent, latency, searches: vec![], rng_seed: seed });
+                    bases.push(Cfg { mesh, v6, contacts: contacts.clone(), silent_contact: silent, latency, searches: vec![], via_router: false, rng_seed: seed });
                 }
             }
         }
@@ -207,6 +224,10 @@ pub fn run(tier: Tier) -> Report {
         };
         let mid = 2 * b.latency + 2;
         let mut offs: Vec<u64> = vec![0, 1, mid.min(tb.saturating_sub(1)), tb.saturating_sub(1), tb, tb + 100];
+        // searches that arrive while the node re-bootstraps (every 5 s on a small network)
+        for k in [4_998u64, 5_000, 5_001, 5_001 + b.latency, 5_001 + 2 * b.latency, 5_003 + 2 * b.latency, 10_002 + 3 * b.latency] {
+            offs.push(tb + k);
+        }
         offs.dedup();
         for o in offs {
             for ann in [false, true] {
@@ -222,6 +243,16 @@ pub fn run(tier: Tier) -> Report {
         let mut c = b.clone();
         c.searches = vec![(Some(0), 1, true), (Some(mid.min(tb.saturating_sub(1))), 0, false)];
         work.push(c);
+    }
+    // routers only: the node works from the routers' answers without ever being "Bootstrapped"
+    for mesh in [2usize, 3] {
+        for latency in [1u64, 200] {
+            for o in [0u64, 1, 2 * latency + 2, 3_000, 6_000] {
+                for ann in [false, true] {
+                    work.push(Cfg { mesh, v6: false, contacts: vec![0], silent_contact: false, latency, searches: vec![(Some(o), 0, ann)], via_router: true, rng_seed: seed });
+                }
+            }
+        }
     }
     let outs = par_map(&work, |_, cfg| {
         let (res, early, _) = run_cfg(cfg, &[None], &[]);
